@@ -8,9 +8,10 @@ package harness
 
 import (
 	"encoding/json"
-	"os"
 	"fmt"
+	oracletypes "github.com/elys-network/elys/x/oracle/types"
 	"math/big"
+	"os"
 	"sort"
 	"strings"
 	"testing"
@@ -47,9 +48,77 @@ type lHist struct {
 	Ops []lOp `json:"ops"`
 }
 
-func lGen(r *Rng, id int) lHist {
+// lScenario: directed histories that a uniform generator reaches too rarely: several leveraged positions of different
+// owners on one pool, time for interest to accrue, a price move that makes SOME of them unhealthy, then a batch
+// close-positions message listing all of them (force-closes and mere settlements interleaved in one tx), by a third party.
+func lScenario(r *Rng, id int) lHist {
 	h := lHist{ID: id}
-	n := 30 + r.Intn(25)
+	add := func(o lOp) { h.Ops = append(h.Ops, o) }
+	perp := r.Chance(60)
+	k := 2 + r.Intn(3)
+	short := r.Chance(30)
+	for i := 0; i < k; i++ {
+		if perp {
+			d := 0
+			if short {
+				d = 1
+			} else if r.Chance(30) {
+				d = 2
+			}
+			add(lOp{Op: "perp_open", U: i % 5, Dir: d, Amt: r.Decade(6, 10).String(), Lev: []string{"1.5", "2", "3", "5", "8", "10"}[r.Intn(6)], Rel: r.Intn(4)})
+		} else {
+			add(lOp{Op: "lev_open", U: i % 5, Amt: r.Decade(5, 10).String(), Lev: []string{"2", "3", "5", "9.5", "10"}[r.Intn(5)], P: []string{"0", "0", "0.5"}[r.Intn(3)]})
+		}
+		if r.Chance(30) {
+			add(lOp{Op: "swap_in", U: r.Intn(5), V: r.Intn(5), Pool: 0, Dir: r.Intn(2), Amt: r.Decade(5, 10).String(), Rel: r.Intn(4)})
+		}
+	}
+	add(lOp{Op: "blocks", N: r.Pick(1, 2), DT: r.Pick(3700, 86400, 86400, 604800)})
+	for round := 0; round < 2; round++ {
+		f := []string{"0.8", "0.8", "0.95", "0.5"}[r.Intn(4)]
+		if perp && short {
+			f = []string{"1.25", "1.25", "1.05", "2"}[r.Intn(4)]
+		}
+		cp := "lev_close_positions"
+		if perp {
+			cp = "perp_close_positions"
+		}
+		idx := r.Intn(4)
+		if r.Chance(70) {
+			// the position that will head the batch is steered to just below (mostly) / just above its liquidation threshold
+			sd := 1
+			if perp {
+				sd = 0
+			}
+			rel := 0
+			if r.Chance(25) {
+				rel = 1
+			}
+			add(lOp{Op: "steer", Dir: sd, Idx: idx, Rel: rel})
+		} else {
+			add(lOp{Op: "price", P: f})
+		}
+		add(lOp{Op: cp, U: r.Intn(5), Idx: idx, Dir: 0, N: 8, Rel: r.Intn(2)})
+		add(lOp{Op: "blocks", N: 1, DT: r.Pick(5, 3700)})
+		if r.Chance(50) {
+			add(lOp{Op: cp, U: r.Intn(5), Idx: r.Intn(4), Dir: 1 + r.Intn(2), N: 8, Rel: r.Intn(2)})
+		}
+	}
+	// then ordinary traffic on the same state
+	tail := lGenN(r, id, 8+r.Intn(8))
+	h.Ops = append(h.Ops, tail.Ops...)
+	return h
+}
+
+func lGen(r *Rng, id int) lHist {
+	if id%4 == 3 {
+		return lScenario(r, id)
+	}
+	return lGenN(r, id, 30+r.Intn(25))
+}
+
+func lGenN(r *Rng, id int, n int) lHist {
+	h := lHist{ID: id}
 	amt := func() string {
 		// per-decade amounts from dust to more than the reserves
 		return r.Decade(0, 12).String()
@@ -77,13 +146,13 @@ func lGen(r *Rng, id int) lHist {
 		case x < 62:
 			h.Ops = append(h.Ops, lOp{Op: "lev_close", U: u, Idx: r.Intn(4), Rel: r.Intn(6)})
 		case x < 66:
-			h.Ops = append(h.Ops, lOp{Op: "lev_close_positions", U: u, Idx: r.Intn(4), Dir: r.Intn(2)})
+			h.Ops = append(h.Ops, lOp{Op: "lev_close_positions", U: u, Idx: r.Intn(4), Dir: r.Intn(2), N: r.Pick(1, 1, 2, 3, 8), Rel: r.Intn(2)})
 		case x < 74:
 			h.Ops = append(h.Ops, lOp{Op: "perp_open", U: u, Dir: r.Intn(4), Amt: r.Decade(3, 10).String(), Lev: []string{"1.2", "2", "3", "5", "10"}[r.Intn(5)], Rel: r.Intn(4)})
 		case x < 79:
 			h.Ops = append(h.Ops, lOp{Op: "perp_close", U: u, Idx: r.Intn(4), Rel: r.Intn(6)})
 		case x < 83:
-			h.Ops = append(h.Ops, lOp{Op: "perp_close_positions", U: u, Idx: r.Intn(4), Dir: r.Intn(3)})
+			h.Ops = append(h.Ops, lOp{Op: "perp_close_positions", U: u, Idx: r.Intn(4), Dir: r.Intn(3), N: r.Pick(1, 1, 2, 3, 8), Rel: r.Intn(2)})
 		case x < 88:
 			h.Ops = append(h.Ops, lOp{Op: "price", P: []string{"0.5", "0.8", "0.95", "1.05", "1.25", "2"}[r.Intn(6)]})
 		case x < 90:
@@ -98,14 +167,14 @@ func lGen(r *Rng, id int) lHist {
 // ---------------- executor ----------------
 
 type lRun struct {
-	t     *testing.T
-	col   *Collector
-	prop  string
-	w     *World
-	m     *Market
-	h     lHist
-	step  int
-	dead  bool
+	t    *testing.T
+	col  *Collector
+	prop string
+	w    *World
+	m    *Market
+	h    lHist
+	step int
+	dead bool
 	// ghost: tokens sent straight to a pool address outside the protocol (C01 allows these)
 	donated map[string]*big.Int
 	// ghost: deposit tokens that reached the vault's module account by a plain transfer that is not
@@ -320,6 +389,88 @@ type posSnap struct {
 	long       bool
 }
 
+// steer: health thresholds cannot be hit by luck, so the ATOM price is bisected (on throw-away contexts) until the health
+// of the chosen position is just BELOW (Rel 0: liquidatable, with the largest possible payout left) or just ABOVE (Rel 1:
+// must be left alone) the module's safety factor; the found price is then fed as the market price.
+// Dir 0: perpetual MTP number Idx, Dir 1: leveragelp position number Idx.
+func (x *lRun) steer(op lOp) {
+	w, m := x.w, x.m
+	health := func(price sdkmath.LegacyDec) (h sdkmath.LegacyDec, ok bool) {
+		defer func() {
+			if r := recover(); r != nil {
+				ok = false
+			}
+		}()
+		qc := w.QCtx()
+		w.App.OracleKeeper.SetPrice(qc, oracletypes.Price{Asset: m.Display[ATOM], Price: price, Source: "elys", Provider: m.Provider.String(),
+			Timestamp: uint64(qc.BlockTime().Unix()), BlockHeight: uint64(qc.BlockHeight())})
+		if op.Dir == 0 {
+			ms := w.App.PerpetualKeeper.GetAllMTPs(qc)
+			if len(ms) == 0 {
+				return h, false
+			}
+			mtp := ms[op.Idx%len(ms)]
+			ammPool, _ := w.App.AmmKeeper.GetPool(qc, mtp.AmmPoolId)
+			pool, _ := w.App.PerpetualKeeper.GetPool(qc, mtp.AmmPoolId)
+			w.App.PerpetualKeeper.UpdateMTPBorrowInterestUnpaidLiability(qc, &mtp)
+			if _, err := w.App.PerpetualKeeper.SettleMTPBorrowInterestUnpaidLiability(qc, &mtp, &pool, ammPool); err != nil {
+				return h, false
+			}
+			if err := w.App.PerpetualKeeper.SettleFunding(qc, &mtp, &pool, ammPool); err != nil {
+				return h, false
+			}
+			hh, err := w.App.PerpetualKeeper.GetMTPHealth(qc, mtp, ammPool, USDC)
+			return hh, err == nil
+		}
+		ps := w.App.LeveragelpKeeper.GetAllPositions(qc)
+		if len(ps) == 0 {
+			return h, false
+		}
+		p := ps[op.Idx%len(ps)]
+		w.App.StablestakeKeeper.UpdateInterestAndGetDebt(qc, p.GetPositionAddress())
+		hh, err := w.App.LeveragelpKeeper.GetPositionHealth(qc, p)
+		return hh, err == nil
+	}
+	var sf sdkmath.LegacyDec
+	if op.Dir == 0 {
+		sf = w.App.PerpetualKeeper.GetParams(w.QCtx()).SafetyFactor
+	} else {
+		sf = w.App.LeveragelpKeeper.GetParams(w.QCtx()).SafetyFactor
+	}
+	target := sf.Mul(dec("0.9985"))
+	if op.Rel == 1 {
+		target = sf.Mul(dec("1.0015"))
+	}
+	lo, hi := dec("0.05"), dec("500")
+	hLo, ok1 := health(lo)
+	hHi, ok2 := health(hi)
+	if !ok1 || !ok2 || hLo.Equal(hHi) {
+		return
+	}
+	incr := hHi.GT(hLo)
+	if (incr && (target.LT(hLo) || target.GT(hHi))) || (!incr && (target.GT(hLo) || target.LT(hHi))) {
+		return
+	}
+	for i := 0; i < 60; i++ {
+		mid := lo.Add(hi).QuoInt64(2)
+		hm, ok := health(mid)
+		if !ok {
+			return
+		}
+		if (hm.LT(target)) == incr {
+			lo = mid
+		} else {
+			hi = mid
+		}
+	}
+	// pick the side of the interval that satisfies the request (below the factor for Rel 0, above for Rel 1)
+	pick := lo
+	if hl, ok := health(lo); ok && ((op.Rel == 0) != hl.LTE(sf)) {
+		pick = hi
+	}
+	m.SetPrice(ATOM, pick)
+}
+
 func (x *lRun) closePositions(op lOp) (res TxResult) {
 	w, m := x.w, x.m
 	u := m.User(op.U)
@@ -342,11 +493,22 @@ func (x *lRun) closePositions(op lOp) (res TxResult) {
 		ammPool, _ := w.App.AmmKeeper.GetPool(qc, p.AmmPoolId)
 		lpPrice, lpErr := ammPool.LpTokenPrice(qc, w.App.OracleKeeper, w.App.AccountedPoolKeeper)
 		req := &levtypes.PositionRequest{Address: p.Address, Id: p.Id}
+		// batch form: the message carries a LIST; the observed position first (Rel 0) or last (Rel 1), then its neighbours
+		reqs := []*levtypes.PositionRequest{req}
+		for j := int64(1); j < op.N && int(j) < len(ps); j++ {
+			q := ps[(op.Idx+int(j))%len(ps)]
+			r2 := &levtypes.PositionRequest{Address: q.Address, Id: q.Id}
+			if op.Rel == 1 {
+				reqs = append([]*levtypes.PositionRequest{r2}, reqs...)
+			} else {
+				reqs = append(reqs, r2)
+			}
+		}
 		msg := &levtypes.MsgClosePositions{Creator: u}
 		if op.Dir == 0 {
-			msg.Liquidate = []*levtypes.PositionRequest{req}
+			msg.Liquidate = reqs
 		} else {
-			msg.StopLoss = []*levtypes.PositionRequest{req}
+			msg.StopLoss = reqs
 		}
 		res = w.Deliver(msg)
 		after, err2 := w.App.LeveragelpKeeper.GetPosition(w.QCtx(), owner, p.Id)
@@ -401,18 +563,32 @@ func (x *lRun) closePositions(op lOp) (res TxResult) {
 	sf := w.App.PerpetualKeeper.GetParams(qc).SafetyFactor
 	price, perr := w.App.PerpetualKeeper.GetAssetPrice(qc, p.TradingAsset)
 	req := perptypes.PositionRequest{Address: p.Address, Id: p.Id}
+	// batch form: the message carries a LIST; the observed position first (Rel 0) or last (Rel 1), then its neighbours
+	reqs := []perptypes.PositionRequest{req}
+	for j := int64(1); j < op.N && int(j) < len(ms); j++ {
+		q := ms[(op.Idx+int(j))%len(ms)]
+		r2 := perptypes.PositionRequest{Address: q.Address, Id: q.Id}
+		if op.Rel == 1 {
+			reqs = append([]perptypes.PositionRequest{r2}, reqs...)
+		} else {
+			reqs = append(reqs, r2)
+		}
+	}
 	msg := &perptypes.MsgClosePositions{Creator: u}
 	switch op.Dir {
 	case 0:
-		msg.Liquidate = []perptypes.PositionRequest{req}
+		msg.Liquidate = reqs
 	case 1:
-		msg.StopLoss = []perptypes.PositionRequest{req}
+		msg.StopLoss = reqs
 	default:
-		msg.TakeProfit = []perptypes.PositionRequest{req}
+		msg.TakeProfit = reqs
 	}
 	res = w.Deliver(msg)
 	after, err2 := w.App.PerpetualKeeper.GetMTP(w.QCtx(), owner, p.Id)
 	closed := err2 != nil
+	if os.Getenv("VERIF_REPLAY") != "" {
+		fmt.Printf("replay close_positions: observed mtp %s/%d health %s sf %s price %v closed=%v (batch of %d)\n", p.Address, p.Id, hl, sf, price, closed, len(reqs))
+	}
 	sizeChanged := closed || after.Custody.LT(mtp.Custody.Sub(mtp.Custody.QuoRaw(1000)).SubRaw(2)) // beyond interest/funding taken from custody
 	if sizeChanged && settleErr == nil && herr == nil && perr == nil {
 		allowed := false
@@ -709,6 +885,10 @@ func runLedgerHistory(t *testing.T, col *Collector, prop string, h lHist) {
 			}
 			col.Op("blocks", "ok", nil)
 			continue
+		case "steer":
+			x.steer(op)
+			col.Op("steer", "ok", nil)
+			continue
 		case "price":
 			f := dec(op.P)
 			np := m.Prices[ATOM].Mul(f)
@@ -743,6 +923,9 @@ func runLedgerHistory(t *testing.T, col *Collector, prop string, h lHist) {
 			x.c09.step()
 		}
 		col.Op(op.Op, res.Kind(), amt)
+		if os.Getenv("VERIF_REPLAY") != "" {
+			fmt.Printf("replay step %d %+v -> %s %v %v\n", k, op, res.Kind(), res.Err, res.Panic)
+		}
 		fmt.Fprintf(&x.fp, "%s:%s;", op.Op, res.Kind())
 		if res.OK() {
 			x.nontriv = true
